@@ -187,3 +187,12 @@ Proof.
     exact (LR_step fi s s1 s2 s' Hh Hev (IH s2 s' E)).
   - injection E as <-. exact (LR_done fi s s1 Hh).
 Qed.
+
+(* ... and a turn that succeeds has executed its statement successfully *)
+Lemma turn_ok_statement_ok fi s s1 s' :
+  has_next_token (set_state Running s) = (Ok true, s1) -> run_next_statement fi s = (Ok tt, s') ->
+  exists s2, evaluate_statement fi 0 s1 = (Ok tt, s2).
+Proof.
+  intros Hh E. unfold run_next_statement in E. rewrite bind_modify, Safety.bind_run, Hh, Safety.bind_run in E.
+  destruct (evaluate_statement fi 0 s1) as [[[]|e l|p| |] s2]; try discriminate E. exists s2. reflexivity.
+Qed.
